@@ -45,7 +45,10 @@ func pick(c *Ctx, label string, base, n int) int {
 
 // adjacent variable-length fields: boundary shifts, and strings that contain what an encoding
 // might use as a delimiter or terminator (NUL, comma, a length-like prefix byte)
-var hashStrings = []string{"", "a", "ab", "b", "a\x00b", "b\x00b", "a,b", "\x01a"}
+// ... and pairs of long strings of equal length that differ only in their last byte: 33, 257 and
+// 4097 bytes (beyond any fixed-size scratch buffer of 32, 256 or 4096 bytes)
+var hashStrings = []string{"", "a", "ab", "b", "a\x00b", "b\x00b", "a,b", "\x01a",
+	strings.Repeat("L", 32) + "x", strings.Repeat("L", 32) + "y", strings.Repeat("M", 256) + "x", strings.Repeat("M", 256) + "y", strings.Repeat("N", 4096) + "x", strings.Repeat("N", 4096) + "y"}
 var hashTimes = []int64{0, 1700000000, 1700000001}
 
 type tripBase struct {
@@ -415,6 +418,59 @@ func c13Trip(baseName string) Harness {
 	}
 }
 
+// c13ManyUpdates: trips with N stop time updates (N around powers of two) that differ in one
+// place only: nowhere, in the last update's arrival time / stop id / presence of departure, in one
+// update in the middle, or by lacking the last update. The relations decide injectivity.
+var c13UpdateCounts = []int{1, 2, 3, 8, 9, 17, 33, 65, 129, 257, 1025}
+
+func c13ManyUpdates(c *Ctx) {
+	n := c13UpdateCounts[c.Free("stop_time_updates", len(c13UpdateCounts))]
+	variant := c.Free("difference", 7)
+	t := &gtfs.Trip{ID: gtfs.TripID{ID: "T", RouteID: "R"}}
+	for i := 0; i < n; i++ {
+		seq := uint32(i + 1)
+		stop := fmt.Sprintf("S%d", i)
+		at := time.Unix(int64(1700000000+60*i), 0).UTC()
+		d := time.Duration(i) * time.Second
+		t.StopTimeUpdates = append(t.StopTimeUpdates, gtfs.StopTimeUpdate{StopSequence: &seq, StopID: &stop, Arrival: &gtfs.StopTimeEvent{Time: &at}, Departure: &gtfs.StopTimeEvent{Delay: &d}})
+	}
+	last := &t.StopTimeUpdates[n-1]
+	mid := &t.StopTimeUpdates[n/2]
+	switch variant {
+	case 1:
+		at := last.Arrival.Time.Add(time.Second)
+		last.Arrival = &gtfs.StopTimeEvent{Time: &at}
+	case 2:
+		s := *last.StopID + "x"
+		last.StopID = &s
+	case 3:
+		last.Departure = nil
+	case 4:
+		s := *mid.StopID + "x"
+		mid.StopID = &s
+	case 5:
+		t.StopTimeUpdates = t.StopTimeUpdates[:n-1]
+	case 6:
+		t.StopTimeUpdates[0], t.StopTimeUpdates[n-1] = t.StopTimeUpdates[n-1], t.StopTimeUpdates[0]
+	}
+	key := tripKey(t)
+	c.Input(hash64(key), true, func() string { return fmt.Sprintf("trip with %d stop time updates, difference %d", n, variant) })
+	var stream, again string
+	pan, where, text, stack := guard(func() { stream = tripStream(t); again = tripStream(cloneTrip(t, nil)) })
+	if pan {
+		c.Fail("panic:"+where+":"+text, "Trip.Hash panicked: %s\n%s", text, stack)
+		return
+	}
+	c.Steps(2)
+	if stream != again {
+		c.Fail("trip-hash-depends-on:deep-copy", "hash input differs for a deep copy of a trip with %d updates", n)
+	}
+	c.Outcome(stream)
+	c.Relate("trip:stream->data", stream, key)
+	c.Relate("trip:data->stream", key, stream)
+	c.Witness("trip_with_many_updates")
+}
+
 func c13Vehicle(withTrip bool) Harness {
 	return func(c *Ctx) {
 		v := &gtfs.Vehicle{}
@@ -546,7 +602,7 @@ func init() {
 	register(&Check{
 		ID:    "C13",
 		Level: "model_checking",
-		Rule: "all trips/vehicles within k deviations (quick k<=2, thorough k<=5 trips / k<=4 vehicles) of the bases {empty, full, mixed} x field alphabets (adjacent strings over {'',a,ab,b, a NUL b, b NUL b, 'a,b', 0x01 a}, nil/zero/non-zero optionals, numeric twins that agree in their low 8/16/32 bits or as float32, 0-3 updates with index-dependent defaults); " +
+		Rule: "trips with 1..1025 stop time updates differing in one place (last update's time / stop / departure, a middle update, one update fewer, first and last swapped); all trips/vehicles within k deviations (quick k<=2, thorough k<=5 trips / k<=4 vehicles) of the bases {empty, full, mixed} x field alphabets (long twins of 33 / 257 / 4097 bytes differing in the last byte; adjacent strings over {'',a,ab,b, a NUL b, b NUL b, 'a,b', 0x01 a}, nil/zero/non-zero optionals, numeric twins that agree in their low 8/16/32 bits or as float32, 0-3 updates with index-dependent defaults); " +
 			"non-trivial = distinct data keys with an id or at least one update; oracle = global bijection hash-input-stream <-> data key plus per-value invariance under copy/zone/flag/back-reference",
 		Assumptions: []string{"the hash input is the concatenation of the byte slices written to the hash.Hash", "instants have whole-second resolution (as produced by the parser)"},
 		Scenarios: func(tier string) []*Scenario {
@@ -558,6 +614,7 @@ func init() {
 				{Name: "trip/empty", Bound: k, Run: c13Trip("empty")},
 				{Name: "trip/full", Bound: k, Run: c13Trip("full")},
 				{Name: "trip/mixed", Bound: k, Run: c13Trip("mixed")},
+				{Name: "trip/many-updates", Bound: -1, Run: c13ManyUpdates},
 				{Name: "vehicle/plain", Bound: kv, Run: c13Vehicle(false)},
 				{Name: "vehicle/with-trip", Bound: kv, Run: c13Vehicle(true)},
 			}
